@@ -97,14 +97,18 @@ def run_roundtrip(case, tape):
 
         def check_files(w, results):
             lay = dict((n, o) for n, o in case['layouts'])
+            final = {}
             for i, wr in enumerate(case['writes']):
-                fn = os.path.join(folder, '%s_%06d.h5' % (wr['name'], wr['t']))
-                if not seams._real['exists'](fn):
-                    raise OracleFail('checkpoint-missing', dict(file=os.path.basename(fn)))
-                with seams.real_h5File(fn, 'r') as fh:
-                    d = np.array(fh['dset'])
-                    order = [int(x) for x in fh['dset'].attrs['Layout']]
+                final[(wr['name'], wr['t'])] = i        # a later write to the same file replaces it
+            for (nm, tt), i in sorted(final.items()):
+                wr = case['writes'][i]
+                fn = _ckpt_files(folder, wr['name']).get(wr['t'])
+                if fn is None:
+                    raise OracleFail('checkpoint-missing', dict(name=wr['name'], t=wr['t']))
+                d, order = _read_h5(fn)
                 G = cm.global_array(shape, case['dtype'], salt=i)
+                if order is None:
+                    order = list(lay[wr['layout']])      # recorded some other way: checked through the load
                 if order != list(lay[wr['layout']]):
                     raise OracleFail('checkpoint-layout-attr', dict(file=os.path.basename(fn), got=order,
                                                                     want=list(lay[wr['layout']])))
@@ -459,19 +463,38 @@ def _driver_world(M, P, grid, sched, cwd, args):
         os.chdir(old_cwd)
 
 
-def _read_ckpt(folder, name, t):
-    fn = os.path.join(folder, '%s_%06d.h5' % (name, t))
-    if not seams._real['exists'](fn):
-        return None
+def _ckpt_files(folder, name):
+    """{time: path} of the checkpoints <name>_<time>.h5 in a folder (any zero padding)"""
+    out = {}
+    for fn in seams.real_glob(os.path.join(folder, name + '_*.h5')):
+        stem = os.path.basename(fn)[len(name) + 1:].split('.')[0]
+        try:
+            out[int(stem)] = fn
+        except ValueError:
+            pass
+    return out
+
+
+def _read_h5(fn):
+    """(data, recorded dimension order or None) of the single dataset of a checkpoint"""
     with seams.real_h5File(fn, 'r') as fh:
-        return np.array(fh['dset']), [int(x) for x in fh['dset'].attrs['Layout']]
+        names = [k for k in fh.keys()]
+        ds = fh['dset'] if 'dset' in names else fh[names[0]]
+        order = None
+        if 'Layout' in ds.attrs:
+            order = [int(x) for x in ds.attrs['Layout']]
+        return np.array(ds), order
+
+
+def _read_ckpt(folder, name, t):
+    fn = _ckpt_files(folder, name).get(int(t))
+    if fn is None:
+        return None
+    return _read_h5(fn)
 
 
 def _list_times(folder):
-    out = []
-    for fn in seams.real_glob(os.path.join(folder, 'grid_*.h5')):
-        out.append(int(os.path.basename(fn)[5:].split('.')[0]))
-    return sorted(out)
+    return sorted(_ckpt_files(folder, 'grid'))
 
 
 def run_driver(case, tape):
